@@ -103,9 +103,9 @@ def rule_views(ctx):
     if fd is not None:
         for r_ in [x for x in walk_shallow(fd.node) if isinstance(x, ast.Return) and x.value is not None]:
             txt = ast.unparse(r_.value)
-            built = ("self.curves" in txt and ".data" in txt) or any(
+            built = (_reads_curve_list(r_.value) and ".data" in txt) or any(
                 isinstance(x, ast.Name) and any(isinstance(a_, ast.Assign) and any(isinstance(t_, ast.Name) and t_.id == x.id for t_ in a_.targets)
-                                                and "self.curves" in ast.unparse(a_.value) and ".data" in ast.unparse(a_.value)
+                                                and _reads_curve_list(a_.value) and ".data" in ast.unparse(a_.value)
                                                 for a_ in walk_shallow(fd.node)) for x in ast.walk(r_.value)) and any(
                 isinstance(c_, ast.Call) and ast.unparse(c_.func).split(".")[-1] in ("vstack", "column_stack", "stack", "array", "asarray", "hstack")
                 for c_ in ast.walk(r_.value))
@@ -522,6 +522,12 @@ def rule_pu_fresh(ctx):
     ctx.floor("PU.FRESH", 2)
 
 
+def _reads_curve_list(e):
+    """the expression iterates / reads `self.curves` itself (not a table derived from it such as self.curvesdict)"""
+    return any(isinstance(x, ast.Attribute) and x.attr == "curves" and isinstance(x.value, ast.Name) and x.value.id == "self"
+               for x in ast.walk(e))
+
+
 def rule_pu_channel(ctx):
     p = ctx.p
     fo = p.func("reader.open_file")
@@ -559,6 +565,27 @@ def rule_pu_channel(ctx):
                           "the name that is opened is the caller's string itself",
                           "the file name passes through %s before it is opened: a str path and the pathlib.Path of the same file (which is "
                           "opened as given) can name different files" % sorted(cn))
+    # the Path -> str step names the same file the operating system would open for the Path: str() / absolute() / fspath only.
+    # os.path.abspath / normpath collapse `..` lexically (a different file behind a symlinked directory)
+    if p.has_func("reader.check_for_path_obj"):
+        fp = p.func("reader.check_for_path_obj")
+        LEXICAL = {"abspath", "normpath", "relpath", "normcase", "expanduser", "expandvars", "lower", "upper", "strip", "replace"}
+        SAME = {"absolute", "str", "__str__", "fspath", "as_posix", "isinstance", "format", "join", "getcwd", "cwd"}
+        used = set()
+        for sub in walk_shallow(fp.node):
+            if isinstance(sub, ast.Call):
+                used.add(sub.func.attr if isinstance(sub.func, ast.Attribute) else sub.func.id if isinstance(sub.func, ast.Name) else "?")
+        lex = sorted(used & LEXICAL)
+        other = sorted(used - LEXICAL - SAME)
+        site_p = "reader.check_for_path_obj#path-to-str"
+        if lex:
+            ctx.bad("PU.CHANNEL", site_p, fp, fp.node, "a pathlib.Path is turned into a string through %s: the path is rewritten "
+                    "lexically (`dir/link/../x.las` loses the symlink), so the Path and the same location given as an open file or "
+                    "as a string can name different files" % lex)
+        elif other:
+            ctx.undecided("PU.CHANNEL", site_p, fp, fp.node, "the Path -> str conversion calls %s: not known to keep the named file" % other)
+        else:
+            ctx.ok("PU.CHANNEL", site_p, fp, fp.node, "a pathlib.Path becomes the string of the same (absolute) path, unrewritten")
     if n == 0:
         ctx.bad("PU.CHANNEL", "reader.open_file#string-channel", fo, fo.node, "open_file no longer wraps string content in StringIO")
     # explicit encoding precedence in open_with_codecs
